@@ -238,3 +238,29 @@ func (s *Scratch) Build(name, pkg string, flags ...string) (string, Result) {
 	r := s.Go(15*time.Minute, nil, args...)
 	return bin, r
 }
+
+// EnsureDiskSpace is a safety net against the Go build cache: every run builds scratch modules under fresh paths,
+// so each check adds about a gigabyte of cache entries that are never reused (a long session filled a 250 GB disk).
+// When less than minFreeGiB is left on the file system of the cache, the cache is emptied before the run starts.
+func EnsureDiskSpace(minFreeGiB uint64) {
+	dir := os.Getenv("GOCACHE")
+	if dir == "" {
+		home, err := os.UserHomeDir()
+		if err != nil {
+			return
+		}
+		dir = filepath.Join(home, ".cache", "go-build")
+	}
+	var st syscall.Statfs_t
+	if err := syscall.Statfs(filepath.Dir(dir), &st); err != nil {
+		return
+	}
+	free := st.Bavail * uint64(st.Bsize) >> 30
+	if free >= minFreeGiB {
+		return
+	}
+	fmt.Fprintf(os.Stderr, "covr: only %d GiB free, emptying the Go build cache (go clean -cache)\n", free)
+	cmd := exec.Command("go", "clean", "-cache")
+	cmd.Env = Env()
+	cmd.Run()
+}
